@@ -516,6 +516,74 @@ def rule_OD11(rep, prog_io):
         rep.unknown(rid, "fewer than 15 retain-then-submit sites found in io.c (%d)" % n)
 
 
+def rule_OD16(rep, prog_io):
+    """dual of OD11: a completion block that releases a captured object on one of its exits releases it (or forwards it to a nested block) on all of them"""
+    rid = rep.rule("C17-OD16", "dispatch I/O: a block that owns a reference on a captured object (it releases the capture on some exit) gives it back on EVERY exit - by "
+                   "releasing it or by handing it to a nested block that captures the same object; an early `refused` return that skips the release leaves the "
+                   "captured channel / queue / data retained for ever (never finalised, its cleanup never runs)", floor=20)
+    prog = prog_io
+    SUBMIT = ("dispatch_async", "dispatch_barrier_async", "dispatch_group_async", "dispatch_group_notify", "dispatch_sync", "dispatch_async_f")
+    REL = ("dispatch_release", "_dispatch_release", "_dispatch_io_data_release", "_dispatch_release_tailcall")
+    n = 0
+    for f2 in prog.all_functions():
+        if "block_invoke" not in f2.name:
+            continue
+        def cap_off(op):
+            a = f2.inst(op)
+            while a is not None and a.op == "bitcast":
+                a = f2.inst(a.ops[0])
+            if a is None or a.op != "load" or not a.d.get("ptr") or list(a.d["ptr"]["base"][:2]) != ["a", 0]:
+                return None
+            return a.d["ptr"].get("off")
+        rels = {}
+        for r in f2.all_insts():
+            if r.op == "call" and r.callee in REL and r.ops:
+                off = cap_off(r.ops[0])
+                if off is not None:
+                    rels.setdefault(off, []).append(r)
+        if not rels:
+            continue
+        # nested submissions that capture the same value
+        fwd = {}
+        for c in f2.all_insts():
+            if c.op != "call" or c.callee not in SUBMIT:
+                continue
+            b = f2.inst(c.ops[-1])
+            while b is not None and b.op == "bitcast":
+                b = f2.inst(b.ops[0])
+            if b is None or b.op != "alloca":
+                continue
+            for st in f2.all_insts():
+                if st.op == "store" and st.d.get("ptr") and list(st.d["ptr"]["base"][:2]) == ["i", b.id]:
+                    off = cap_off(st.ops[0])
+                    if off is not None:
+                        fwd.setdefault(off, []).append(c)
+        first = next(iter(f2.all_insts()))
+        rets = [i for i in f2.all_insts() if i.op == "ret"]
+        for off, rl in sorted(rels.items()):
+            n += 1
+            rep.saw(f2)
+            gives = rl + fwd.get(off, [])
+            leak = [r for r in rets if first not in gives and f2.inst_reaches(first, r, avoid_insts=gives)]
+            # an exit taken only when the capture is NULL owes nothing
+            if leak:
+                res = [x for x in paths.walk(f2, first, lambda i: False, avoid=lambda i: i in gives) if x[0] == "exit"]
+                def cap_null(cx):
+                    for iid, tv in cx.truth.items():
+                        t = f2.insts[iid]
+                        if t.op == "icmp" and t.d["pred"] in ("eq", "ne") and any(o[0] == "n" for o in t.ops) and any(cap_off(o) == off for o in t.ops if o[0] == "i"):
+                            if tv == (t.d["pred"] == "eq"):
+                                return True
+                    return False
+                leak = [x for x in res if not cap_null(x[2])]
+            rep.require(rid, not leak, rl[0].loc, f2.name, "capture-not-released-on-every-exit:%s:%s" % (f2.name, off),
+                        "%s releases the object it captured at offset %s of its block on some exits but can return without releasing it or passing it on: the reference "
+                        "taken for the block by its submitter is never dropped, so the captured object (for dispatch_io_create_with_io: the wrapped channel) is never "
+                        "disposed" % (f2.name, off), sample={"block": f2.name, "offset": off, "releases": len(rl)})
+    if n < 20:
+        rep.unknown(rid, "fewer than 20 (block, released capture) pairs found in io.c (%d)" % n)
+
+
 def rule_OD13(rep, prog, q):
     rid = rep.rule("C17-OD13", "last external release of a runloop queue: the queue is unbound from its thread (_dispatch_queue_clear_bound_thread clears the drain owner) "
                    "BEFORE the hand-over wakeup - a wakeup that still sees an owner only marks the queue DIRTY and enqueues nothing, so the last internal release "
@@ -691,7 +759,14 @@ def run(rep, tier="quick", srcdir=None, only=None):
         rule_OD13(rep, prog, q)
     if want("C17-OD15"):
         rule_OD15(rep, prog)
-    if want("C17-OD11") or want("C17-OD12") or want("C17-SB14"):
+    if want("C07-MP6"):
+        # the reference a pending notification holds on its queue is dropped only after the block has been handed to that queue (shared with C07)
+        from . import C07
+        from dqsa import consts as _consts
+        g7 = _consts.get(["DISPATCH_GROUP_VALUE_INTERVAL", "DISPATCH_GROUP_VALUE_MASK", "DISPATCH_GROUP_VALUE_1", "DISPATCH_GROUP_HAS_NOTIFS",
+                          "DISPATCH_GROUP_HAS_WAITERS", "ETIMEDOUT"], srcdir=srcdir, unit="semaphore")
+        C07.rule_MP6(rep, prog, g7)
+    if want("C17-OD11") or want("C17-OD12") or want("C17-SB14") or want("C17-OD16"):
         pio, _u = load(["io"], tier, srcdir)
         if want("C17-OD11"):
             rule_OD11(rep, pio)
@@ -699,6 +774,8 @@ def run(rep, tier="quick", srcdir=None, only=None):
             rule_OD12(rep, prog, pio, prog)
         if want("C17-SB14"):
             rule_SB14(rep, [prog] if tier == "thorough" else [prog, pio])
+        if want("C17-OD16"):
+            rule_OD16(rep, pio)
     if want("C13-OD2"):
         C13.rule_OD2(rep, prog)      # data objects: returned / stored sub-objects are retained (destructors run exactly once)
     if want("C13-WM3"):
